@@ -240,6 +240,7 @@ theorem decodeNode_mmap (σ : Schema) (fuel : Nat) (env : List (String × Node))
           let (ps, ds) ← decodePairsFull σ fuel env k v kty vty count old ds
           .ok (.mmap ps, ds)
       else do
+        let ds := if old.length > 62 then { ds with dictViolations := ds.dictViolations + 1 } else ds
         let (ps, ds) ← decodeValuesOnly σ fuel env v (x >>> 1).toNat 0 old ds
         .ok (.mmap ps, ds)) := by
   cases cur <;> (simp only [decodeNode, mmapPairs]; try rfl)
@@ -456,8 +457,9 @@ theorem node_step (σ : Schema) (fuel : Nat) (hn : PNode σ fuel) (hf : PFields 
               rw [hD1]
               rw [← hD2] at hr
               obtain ⟨w1, w2, w3⟩ := even_word changed hch.1 (by omega)
+              have h62 : ¬ (mmapPairs cur).length > 62 := by omega
               simp only [decodeNode_mmap, col_feed1_self _ _ _ hbD, pre, Varint.decode_encode, needBytes, bind,
-                Except.bind, restore_bytes, w1, w2, w3, Bool.false_eq_true, ↓reduceIte]
+                Except.bind, restore_bytes, w1, w2, w3, h62, Bool.false_eq_true, ↓reduceIte]
               rw [hr]
           · simp at h
         · simp at h
